@@ -4,7 +4,7 @@ from concurrent.futures import ThreadPoolExecutor
 from vcheck import *
 from wcommon import *
 
-LINK_ERR = {1, 2, 3, 4, 5, 6, 7, 8, 20, 21}
+LINK_ERR = {1, 2, 3, 4, 5, 6, 7, 8, 9, 20, 21}
 EVENT_NAMES = {0: "instantiate-class", 1: "call-result", 2: "snapshot-globals", 3: "snapshot-memory", 4: "snapshot-pages"}
 # deviations from the specification that are open findings (each has its own sig); they do not explain a model mismatch
 DEVIATIONS = ("memory-import-max-vs-unbounded", "elem-oob-ignored")
@@ -12,12 +12,18 @@ DEVIATIONS = ("memory-import-max-vs-unbounded", "elem-oob-ignored")
 
 def coq_actions(c, obs, ci=None):
     """(Coq text of one engine's history, step index of every action). With ci, modules are referred to by the
-    names md_<ci>_<n> (defined once per case by coq_mod_defs and shared by both engines' histories)."""
+    names md_<ci>_<n> (defined once per case by coq_mod_defs and shared by both engines' histories).
+    Live-frame cases (c["fam"] == "live") are rendered for Rt/LinkLive.v: (limit, host table, [LA action | LHost sigs])."""
     acts, idx = [], []
+    live = c.get("fam") == "live"
     for si, (st, o) in enumerate(zip(c["steps"], obs)):
         if o.get("skip") or st.get("tag") == "pre":   # "pre" snapshots serve the Python frame oracle only
             continue
         k = st["k"]
+        if k == "hinst":
+            acts.append("LHost [%s]" % "; ".join("(%s, %s)" % (zl(h["p"]), zl(h["r"])) for h in c.get("hosts") or []))
+            idx.append(si)
+            continue
         if k == "inst":
             acts.append("AInst %s %d" % (c["mods"][st["n"]]["coq"] if ci is None else "md_%d_%d" % (ci, st["n"]), o["code"]))
         elif k == "call":
@@ -26,27 +32,31 @@ def coq_actions(c, obs, ci=None):
         else:
             mem = "; ".join("(%d, %d)" % (a, v) for a, v in (o.get("mem") or []))
             acts.append("ASnap %d %s [%s] (%d)" % (st["n"], zl(o.get("globals") or []), mem, o["pages"]))
+        if live: acts[-1] = "LA (%s)" % acts[-1]
         idx.append(si)
+    if live:
+        ht = "; ".join("(%d%%nat, %d%%nat)" % (h["mod"], h["f"]) for h in c.get("hosts") or [])
+        return "(%d, [%s], [\n %s])" % (c["limit"], ht, ";\n ".join(acts)), idx
     return "(%d, [\n %s])" % (c["limit"], ";\n ".join(acts)), idx
 
 
 def coq_mod_defs(c, ci):
-    return "".join("Definition md_%d_%d : modul := %s.\n" % (ci, m["n"], m["coq"]) for m in c["mods"])
+    return "".join("Definition md_%d_%d : modul := %s.\n" % (ci, m["n"], m["coq"]) for m in c["mods"] if not m.get("host"))
 
 
-def eval_link(name, items, defs, shard=20, workers=10):
-    """evaluate Rt.LinkCheck.link_events over the histories in parallel shards; (events, error text or None).
-    defs[i]: definitions needed by items[i] (emitted once per shard)."""
+def eval_link(name, items, defs, shard=20, workers=10, fn="link_events", typ="lcase"):
+    """evaluate Rt.LinkCheck.link_events (Rt.LinkLive.live_events for the live-frame family) over the histories in
+    parallel shards; (events, error text or None). defs[i]: definitions needed by items[i] (emitted once per shard)."""
     def one(s):
         part = items[s:s + shard]
         dd = []
         for d in defs[s:s + shard]:
             if d not in dd: dd.append(d)
         v = ("From Coq Require Import ZArith List. Import ListNotations.\n"
-             "From Verif Require Import Wasm.Numerics Wasm.Sem Wasm.Harness Rt.Linking Rt.LinkCheck.\nOpen Scope Z_scope.\n"
+             "From Verif Require Import Wasm.Numerics Wasm.Sem Wasm.Harness Rt.Linking Rt.LinkCheck Rt.LinkLive.\nOpen Scope Z_scope.\n"
              + "".join(dd) +
-             "Definition cases : list lcase := [\n" + ";\n".join(part) + "].\n"
-             "Definition M := Eval vm_compute in link_events 0 cases.\nPrint M.\n")
+             "Definition cases : list %s := [\n" % typ + ";\n".join(part) + "].\n"
+             "Definition M := Eval vm_compute in %s 0 cases.\nPrint M.\n" % fn)
         rc, o = coq_eval("%s_%d" % (name, s), v, timeout=900)
         lst = parse_zlist(o, "M")
         if rc != 0 or lst is None:
@@ -75,7 +85,8 @@ def spec_import_ok(im, cur, live):
     k = im["kind"]
     if k == 0: return im["sig"] == im["xsig"]
     if k == 1: return im["elem"] == im["xelem"] and limits_match(im["xmin"], im["xhasmax"], im["xmax"], im["min"], im["hasmax"], im["max"])
-    if k == 2: return limits_match(cur, im["xhasmax"], im["xmax"], im["min"], im["hasmax"], im["max"])
+    if k == 2:   # memory types match iff the limits match AND the shared flags are equal (threads proposal)
+        return limits_match(cur, im["xhasmax"], im["xmax"], im["min"], im["hasmax"], im["max"]) and im.get("shared", False) == im.get("xshared", False)
     return im["mut"] == im["xmut"] and im["vt"] == im["xvt"]
 
 
@@ -96,10 +107,14 @@ def oracle(c, eng, obs):
                     if want is not None and o["globals"][gi] != want:
                         yield ("init-not-current", {}, "step %d: global %d of instance %d is %d right after instantiation, the value it refers to is %d"
                                % (si, gi, st["n"], o["globals"][gi], want), si)
+        elif k == "hinst":
+            live.add(st["n"])
         elif k == "call":
             t = o.get("trap") or ""
             if t.startswith("other") or t == "gopanic":
                 yield ("unusable-after", {}, "step %d: call on instance %d failed outside the WebAssembly trap classes: %s %s" % (si, st["n"], t, o.get("err")), si)
+            if st.get("live"):
+                for w in live_oracle(st, o, si): yield w
             if st.get("expect") is not None:
                 m = mods[st.get("of", 0)]
                 if st["probe"] == "table" and m["fault"] in ("data", "start") and codes.get(m["n"]) not in (30, 31):
@@ -122,7 +137,12 @@ def oracle(c, eng, obs):
             accepted = code not in LINK_ERR
             if accepted and bad:
                 im = m["imports"][bad[0]]
-                if im["kind"] == 2 and im["xkind"] == 2 and im["hasmax"] and not im["xhasmax"] and im["max"] >= limit:
+                if im["kind"] == 2 and im["xkind"] == 2 and im.get("shared", False) != im.get("xshared", False):
+                    yield ("accepts-spec-rejects", {"extern": 2, "what": "shared-flag"},
+                           "step %d: memory import declared %s accepted against an exported memory that is %s (limits import %s, export %s)"
+                           % (si, "shared" if im.get("shared") else "not shared", "shared" if im.get("xshared") else "not shared",
+                              (im["min"], im["hasmax"], im["max"]), (im["xmin"], im["xhasmax"], im["xmax"])), si)
+                elif im["kind"] == 2 and im["xkind"] == 2 and im["hasmax"] and not im["xhasmax"] and im["max"] >= limit:
                     yield ("memory-import-max-vs-unbounded", {}, "step %d: memory import with max %d accepted against an exporter without max" % (si, im["max"]), si)
                 else:
                     yield ("accepts-spec-rejects", {"extern": im["kind"]}, "step %d: import %s accepted, extern_match rejects it" % (si, im), si)
@@ -153,6 +173,34 @@ def oracle(c, eng, obs):
                 if {a: v for a, v in want.items() if v} != memdict(post):
                     yield ("failed-instantiation-frame", {"class": code},
                            "step %d: instance %d memory after the failed instantiation is not (before + the data segments preceding the failing one)" % (si, n), si)
+
+
+def live_oracle(st, o, si):
+    """The property on one live-frame probe: instance st.n's frame touches the shared object, calls out, and while that
+    frame is live the object is written (dir cw) / read (dir cr) by another instance, the same instance re-entered, or
+    the host. The objects are the exporter's objects themselves, not copies, so: the value the frame reads after the
+    call is the last value written to the object by ANYONE (cw); what anyone reads during the call is what the frame
+    wrote last (cr); a growth performed during the call is visible to the frame (size, and the new cells are accessible)."""
+    L = st["live"]
+    sig = {"object": L["kind"], "dir": L["dir"]}
+    what = ("%s, live frame in instance %d (%s of the object), %s by %s through hops %s (instances %s), first instruction %s, before the call: %s, loop %d, grow %s"
+            % (L["kind"], st["n"], L["reader"], "written" if L["dir"] == "cw" else "read", L["writer"], L["path"], L["mods"], L["first"], L["touch"], L["loop"], L["grow"]))
+    if o.get("trap"):
+        yield ("live-frame-visibility", sig, "step %d: %s: the call trapped (%s); no instruction on the path can trap" % (si, what, o["trap"]), si)
+        return
+    res = o.get("res") or []
+    for i, v in zip(L["expidx"], L["expval"]):
+        if i >= len(res) or res[i] != v:
+            yield ("live-frame-visibility", sig, "step %d: %s: args %s, result %d is %s, the last value written to the shared object makes it %d (all results %s)"
+                   % (si, what, st.get("args"), i, res[i] if i < len(res) else None, v, res), si)
+            return
+    if L.get("sizeidx"):
+        before, after = res[L["sizeidx"][0]], res[L["sizeidx"][1]]
+        bound = L["max"] if L["max"] >= 0 else 65536
+        want = min(before + L["grows"], max(bound, before))
+        if after != want:
+            yield ("live-frame-visibility", dict(sig, what="size"), "step %d: %s: size before the call %d, %d growth(s) by one during the call (maximum %d), size read by the frame after the call %d, expected %d"
+                   % (si, what, before, L["grows"], L["max"], after, want), si)
 
 
 def is_reexport_call(c, si):
@@ -187,33 +235,45 @@ def engines_differ(c):
     return None
 
 
+def bump(d, k): d[k] = d.get(k, 0) + 1
+
+
 def run(tier, seed):
     ck = Check("C04", tier, seed)
-    ck.trusted += ["tools/go2coq (memoryBytesNumToPages, MemoryPagesToBytesNum, newMemorySizer regenerated on every run)",
+    ck.trusted += ["coq/Rt/LinkLive.v (host functions of the live-frame family as HReenter; the host's own writes through api.MutableGlobal / api.Memory are modelled as re-entering the exported setter), harness/c04/live.go",
+                   "tools/go2coq (memoryBytesNumToPages, MemoryPagesToBytesNum, newMemorySizer regenerated on every run)",
                    "hand transcription of resolveImports / instantiate / applyElements / applyData / the constant-expression validators into coq/Rt/Linking.v, tied by the correspondence run",
                    "coq/Wasm/Sem.v (reference semantics W), coq/Rt/LinkCheck.v, harness/c04 (generator, encoder, Coq printer), checks/c04.py (oracle)"]
-    ck.assumptions += ["value types i32/i64 and funcref tables only; one memory and one table per module; no table.grow/table.set, no passive segments, no ref.null element entries",
+    ck.assumptions += ["value types i32/i64 and funcref tables only; one memory and one table per module; no passive segments, no ref.null element entries; table.set/table.grow only in the live-frame family's "
+                       "table graphs, which W does not model (engines + oracle only)",
                        "at most one incompatible import per generated module (resolveImports iterates a Go map: with several, the reported error class is not deterministic)",
                        "default page limit (65536) in the run; the theorem takes the limit as a parameter and assumes declared maxima within it",
                        "closing an exporter while importers are live is C09/C10, not this property"]
     proofs_ok = ck.proofs()
     n = 90 if tier == "quick" else 6000
+    nlive = 36 if tier == "quick" else 2500
     binp, log = build_harness("c04")
     if not binp:
         ck.violation("harness-build", {"kind": "build"}, {"log": log[-3000:]}, no_input=True)
         return ck.finish()
-    rc, out = sh([binp, "-seed", str(seed), "-n", str(n)], timeout=3000)
-    cases = [json.loads(l) for l in out.split("\n") if l.startswith("{")]
+    rc, out = sh([binp, "-seed", str(seed), "-n", str(n), "-nlive", str(nlive)], timeout=3000)
+    lines = [json.loads(l) for l in out.split("\n") if l.startswith("{")]
+    cases = [l for l in lines if "aux" not in l]
+    aux = [l for l in lines if "aux" in l]
     if rc != 0 or not cases:
         ck.violation("harness-crash", {"kind": "crash"}, {"rc": rc, "tail": out[-3000:]})
         return ck.finish()
     dist = {"instantiations": {}, "import_variants": {}, "probes": {"mem": 0, "global": 0, "table": 0}, "calls": 0, "traps": {}, "skipped_steps": 0,
-            "stricter_than_spec": 0, "model_out_of_fuel": 0, "elem_oob_ignored": 0}
+            "stricter_than_spec": 0, "model_out_of_fuel": 0, "elem_oob_ignored": 0,
+            "memory_sharedness": {"graphs_with_threads": 0, "import_shared/export_shared": {}, "import_shared/export_unshared": {}, "import_unshared/export_shared": {}, "import_unshared/export_unshared": {}},
+            "live": {"graphs": 0, "witness_graphs": 0, "probes": 0, "modelled_in_W": 0, "engines_and_oracle_only": 0, "owner_frame_direct_call_global": 0,
+                     "object": {}, "direction": {}, "live_frame_of": {}, "touched_by": {}, "hops": {}, "first_instruction": {}, "before_call": {}, "path": {},
+                     "looped": 0, "with_growth": 0, "instances_per_graph": {}, "host_functions": {}}}
     shown = set()
 
     def viol(kind, sig, c, eng, si, detail, no_input=False):
         # a compiler-only anomaly on a call of an imported function is the (repaired) re-export defect coming back
-        if (eng in ("compiler", None) and (is_reexport_call(c, si) or hazard_before(c, si))
+        if (c.get("fam") != "live" and eng in ("compiler", None) and (is_reexport_call(c, si) or hazard_before(c, si))
                 and (kind in ("engines-disagree", "unusable-after") or kind == "model-differs")):
             if not any(w[3] == si for w in oracle(c, "interp", c["engines"]["interp"])):
                 kind, sig, no_input = "reexported-import-host-call", {"kind": "reexported-import-host-call"}, False
@@ -221,59 +281,104 @@ def run(tier, seed):
         if key in shown: return
         shown.add(key)
         detail = dict(detail, case=c["id"], witness=c.get("witness"), engine=eng, step_index=si, step=(c["steps"][si] if si is not None and si >= 0 else None),
-                      mods=[dict(n=m["n"], fault=m["fault"], imports=m["imports"], wasm=m["wasm"]) for m in c["mods"]])
+                      mods=[dict(n=m["n"], fault=m["fault"], imports=m["imports"], wasm=m.get("wasm"), host=m.get("host", False)) for m in c["mods"]])
+        if c.get("fam") == "live":   # the concrete graph (above), its host functions, and the call sequence up to the failing step
+            detail["host_functions"] = c.get("hosts")
+            detail["call_sequence"] = [dict(k=s2["k"], instance=s2["n"], function=s2.get("f"), args=s2.get("args"),
+                                            interp={k2: ox.get(k2) for k2 in ("code", "res", "trap") if ox.get(k2) not in (None, "")},
+                                            compiler={k2: oy.get(k2) for k2 in ("code", "res", "trap") if oy.get(k2) not in (None, "")})
+                                       for s2, ox, oy in list(zip(c["steps"], c["engines"].get("interp") or [], c["engines"].get("compiler") or []))[:(si + 1 if si is not None and si >= 0 else 0)]
+                                       if s2["k"] != "snap"]
         ck.violation(kind, sig, detail, no_input=no_input)
 
     nontrivial = 0
-    items, owner, defs = [], [], []
+    items, owner, defs = [], [], []          # histories replayed through Rt/LinkCheck.v
+    litems, lowner, ldefs = [], [], []       # live-frame histories replayed through Rt/LinkLive.v
+    nhist = 0
     for ci, c in enumerate(cases):
         c["limit"] = c.get("limit", 65536)
         for eng in ("interp", "compiler"):
             obs = c["engines"].get(eng)
             if not obs:
                 viol("engine-error", {"kind": "engine-error", "engine": eng}, c, eng, None, {}); continue
-            txt, idx = coq_actions(c, obs, ci)
-            items.append(txt); owner.append((ci, eng, idx)); defs.append(coq_mod_defs(c, ci))
+            nhist += 1
+            if c.get("fam") == "live":
+                if not c.get("nomodel"):
+                    txt, idx = coq_actions(c, obs, ci)
+                    litems.append(txt); lowner.append((ci, eng, idx)); ldefs.append(coq_mod_defs(c, ci))
+            else:
+                txt, idx = coq_actions(c, obs, ci)
+                items.append(txt); owner.append((ci, eng, idx)); defs.append(coq_mod_defs(c, ci))
             for kind, extra, text, si in oracle(c, eng, obs):
                 sig = dict(kind=kind, **extra)
                 if kind == "rejects-valid-link": dist["stricter_than_spec"] += 1
-                if kind in ("rejects-valid-link", "shared-object", "failed-instantiation-frame", "unusable-after", "accepts-spec-rejects", "init-not-current"): sig["engine"] = eng
+                if kind in ("rejects-valid-link", "shared-object", "failed-instantiation-frame", "unusable-after", "accepts-spec-rejects", "init-not-current", "live-frame-visibility"): sig["engine"] = eng
                 viol(kind, sig, c, eng, si, {"oracle": text})
         d = engines_differ(c)
         if d:
             viol("engines-disagree", {"kind": "engines-disagree"}, c, None, d[0], {"oracle": d[1]})
         obs = c["engines"].get("compiler") or []
         okprobe = 0
+        if c.get("threads"): dist["memory_sharedness"]["graphs_with_threads"] += 1
+        if c.get("fam") == "live":
+            dl = dist["live"]
+            dl["graphs"] += 1
+            if c.get("witness"): dl["witness_graphs"] += 1
+            bump(dl["instances_per_graph"], str(sum(1 for m in c["mods"] if not m.get("host"))))
+            for h in c.get("hosts") or []: bump(dl["host_functions"], h["kind"])
         for st, o in zip(c["steps"], obs):
             if o.get("skip"): dist["skipped_steps"] += 1; continue
+            if st["k"] == "hinst": continue
+            if st.get("live"):
+                L, dl = st["live"], dist["live"]
+                dl["probes"] += 1; okprobe += 1
+                dl["modelled_in_W" if L["model"] else "engines_and_oracle_only"] += 1
+                for key, val in (("object", L["kind"]), ("direction", L["dir"]), ("live_frame_of", L["reader"]), ("touched_by", L["writer"]), ("hops", str(L["hops"])),
+                                 ("first_instruction", L["first"]), ("before_call", L["touch"]), ("path", L["path"])):
+                    bump(dl[key], val)
+                if L["loop"]: dl["looped"] += 1
+                if L["grow"]: dl["with_growth"] += 1
+                if L["kind"] in ("g32", "g64") and L["reader"] == "owner" and L["first"] == "call" and L["dir"] == "cw": dl["owner_frame_direct_call_global"] += 1
             if st["k"] == "inst":
                 m = c["mods"][st["n"]]
                 key = "%s:%d" % (m["fault"], o["code"])
                 dist["instantiations"][key] = dist["instantiations"].get(key, 0) + 1
                 for im in m["imports"]:
+                    if im["kind"] == 2 and im["xkind"] == 2 and o["code"] != 98:
+                        bump(dist["memory_sharedness"]["import_%s/export_%s" % ("shared" if im.get("shared") else "unshared", "shared" if im.get("xshared") else "unshared")], str(o["code"]))
                     if im["variant"] != "ok":
                         key = "%s/%s:%d" % (["func", "table", "memory", "global"][im["kind"]], im["variant"], o["code"])
                         dist["import_variants"][key] = dist["import_variants"].get(key, 0) + 1
             elif st["k"] == "call":
                 dist["calls"] += 1
                 if o.get("trap"): dist["traps"][o["trap"]] = dist["traps"].get(o["trap"], 0) + 1
-                if st.get("probe"):
+                if st.get("probe") and not st.get("live"):
                     dist["probes"][st["probe"]] += 1; okprobe += 1
         if okprobe >= 2: nontrivial += 1
-    ck.cases = len(items)
+    ck.cases = nhist
     ck.distinct = nontrivial
+    # observations outside the property's text: recorded in the evidence, never judged
+    dist["observed_not_judged"] = {a["aux"]: a["engines"] for a in aux}
     ck.dist = dist
     ck.samples = [dict(id=c["id"], witness=c.get("witness"), mods=[dict(n=m["n"], fault=m["fault"], imports=[(i["kind"], i["variant"]) for i in m["imports"]]) for m in c["mods"]],
                        steps=[(s["k"], s["n"], s.get("role")) for s in c["steps"][:12]]) for c in cases[:6]]
     ck.extra["rule"] = ("generated graphs (exporter, 1-2 importers each optionally preceded by a faulty variant, plus 7 fixed witnesses) x interleaved calls/probes/snapshots x both engines; "
                         "every engine history is replayed through Rt/Linking.v instantiate + W (coq/Rt/LinkCheck.v: instantiation class vs code_accept AND vs extern_match, call results, "
                         "per-instance globals/memory/pages) and judged by the Python oracle (spec import predicate, write-here/read-there probes, captured initial values, "
-                        "frame of failed instantiations, engine agreement); non-trivial = at least two probes ran across live instances")
+                        "frame of failed instantiations, engine agreement); non-trivial = at least two probes ran across live instances. "
+                        "Live-frame family (6 fixed witness graphs: the seeded-defect graph for i32 and i64, every reader x writer x first-instruction combination per object kind; then random graphs): "
+                        "a host module + 3-5 instances; a frame touches a shared mutable global / memory cell / table slot, calls out (call of an import or call_indirect through the shared table, 1-3 hops "
+                        "through other instances, the table or host functions), the object is written or read meanwhile by another instance, the same instance re-entered, or the host "
+                        "(api.MutableGlobal / api.Memory), possibly grown, and is read again in the same frame; globals and memory are also replayed on W (Rt/LinkLive.v: host functions re-enter), "
+                        "table slots are engine-vs-engine + oracle; oracle: the value read after the call is the last value written by anyone")
     ev, err = eval_link("c04", items, defs)
     if err:
         ck.violation("model-eval", {"kind": "model-eval"}, {"err": err}, no_input=True)
-    for k, ai, kind, val in ev:
-        ci, eng, idx = owner[k]
+    lev, err = eval_link("c04live", litems, ldefs, shard=8, fn="live_events", typ="livecase") if litems else ([], None)
+    if err:
+        ck.violation("model-eval", {"kind": "model-eval", "family": "live"}, {"err": err}, no_input=True)
+    for k, ai, kind, val in [(k, ai, kind, val, ) for k, ai, kind, val in ev] + [(-1 - k, ai, kind, val) for k, ai, kind, val in lev]:
+        ci, eng, idx = owner[k] if k >= 0 else lowner[-1 - k]
         c = cases[ci]
         si = idx[ai] if ai < len(idx) else -1
         st = c["steps"][si] if si >= 0 else None
